@@ -97,8 +97,13 @@ class Lab(object):
                 BufferedOutputStream.__init__(self)
                 self.ev = []
 
+            fail_newline = False
+
             def write(self, x):
                 sched.SCHED.point("write")
+                if self.fail_newline and x == "\n" and sched.SCHED.me() == "main":
+                    # the stream fails (a closed pipe) exactly when the line is to be terminated
+                    raise OSError(32, "Broken pipe")
                 self.ev.append((sched.SCHED.me(), x))
                 BufferedOutputStream.write(self, x)
 
@@ -151,6 +156,8 @@ def run_schedule(lab, sched, program, prefix, rng=None, max_steps=600, variant="
     s = sched.new_run(choose, max_steps)
     # 'file-long': the library's wrapper of a file object, and a first message of several thousand characters
     st = lab.FileSchedStream() if variant == "file-long" else lab.SchedStream()
+    if variant == "fail-newline":
+        st.fail_newline = True
     out = lab.Output(st, lab.PlainFormatter() if variant == "plain" else lab.AnsiFormatter(forced=True))
     scope = out.indent(3) if variant == "indented" else None
     pi = lab.ProgressIndicator(out, fmt=" {indicator} {message}" if variant != "plain" else " {message}", interval=100)
@@ -218,6 +225,10 @@ def judge(sh, res, program, record):
     # (1) stopped and joined, whatever the exit
     if res["spinner_alive"]:
         sh.violate("spinner-alive", record, "after leaving auto() (%s) the spinner thread is still alive" % (("body raised " + raising[0]) if raising else "normal exit"))
+        return
+    if res["variant"] == "fail-newline":
+        # the stream's own error may replace the body's; what matters here is that the spinner was stopped and joined (above)
+        sh.count("schedules_with_failing_stream")
         return
     if raising:
         if res["error"] is None or type(res["error"]).__name__ != raising[0]:
@@ -580,7 +591,7 @@ def run(sh, spec):
             sh.count("programs")
             run_random(sh, lab, sched, progs[pid], spec["random"], pid)
             # the same program on an undecorated output and inside an indentation scope (smaller bound)
-            for variant in ("plain", "indented", "empty-end", "file-long"):
+            for variant in ("plain", "indented", "empty-end", "file-long") + (("fail-newline",) if any(k == "raise" for k, _ in progs[pid]) else ()):
                 explore(sh, lab, sched, progs[pid], min(spec["bound"], 2), min(spec["cap"], 400), pid, variant)
                 sh.count("variant_programs")
         sh.count("programs_fully_enumerated_within_bound", complete)
